@@ -211,6 +211,7 @@ func handleConn(conn net.Conn, conf *Config) error {
 	if err != nil {
 		return err
 	}
+	verifPoint("conn.header")
 
 	log.Printf("connection from %s %s (%dx%d@%dfps)", headerInfo.Brand(), headerInfo.Model(), headerInfo.ResX(), headerInfo.ResY(), headerInfo.FPS())
 	conf.LoadMotionConfig(headerInfo.Model())
@@ -249,6 +250,7 @@ func handleConn(conn net.Conn, conf *Config) error {
 		NewCPTVFileRecorder(conf, headerInfo, headerInfo.Brand(), headerInfo.Model(), headerInfo.CameraSerial(), headerInfo.Firmware()),
 	)
 
+	verifPoint("conn.processor")
 	log.Print("reading frames")
 
 	frameLogIntervalFirstMin *= headerInfo.FPS()
@@ -263,6 +265,7 @@ func handleConn(conn net.Conn, conf *Config) error {
 		if message == clearBuffer {
 			log.Print("clearing motion buffer")
 			processor.Reset(headerInfo)
+			verifPoint("conn.clear")
 			continue
 		}
 
@@ -278,7 +281,9 @@ func handleConn(conn net.Conn, conf *Config) error {
 			log.Printf("%d frames for this connection", totalFrames)
 		}
 
+		verifPoint("conn.frame.received")
 		err = processor.Process(rawFrame)
+		verifPoint("conn.frame.processed")
 		if _, isBadFrame := err.(*lepton3.BadFrameErr); isBadFrame {
 			event := eventclient.Event{
 				Timestamp: time.Now(),
